@@ -6,6 +6,7 @@ package main
 import (
 	"bytes"
 	"context"
+	"encoding/binary"
 	"fmt"
 	"io"
 	"log"
@@ -54,6 +55,16 @@ func genScenario(r *hx.Rand, big bool) scenario {
 			ls = append(ls, "latecall")
 		}
 		ls = append(ls, "shutdown", "sever")
+		return scenario{ls}
+	}
+	if r.Intn(6) == 0 {
+		// tunnel reads: the reply's bytes must be in the buffer the caller passed, whatever its fill
+		size := hx.Pick(r, []int{1, 8, 64, 4096, 32768})
+		ls = append(ls, fmt.Sprintf("calls n=%d kind=read size=%d", n, size))
+		for _, c := range r.Perm(n) {
+			ls = append(ls, fmt.Sprintf("frame okread c=%d len=%d", c, hx.Pick(r, []int{0, 1, size / 2, size - 1, size, size})))
+		}
+		ls = append(ls, "sever")
 		return scenario{ls}
 	}
 	ls = append(ls, fmt.Sprintf("calls n=%d", n))
@@ -192,6 +203,7 @@ func runScenario(sc scenario, rep *hx.Report) outcome {
 	var wg sync.WaitGroup
 	dead := false // reader of the client is dead (fatal frame)
 	lateIdx := -1
+	readSize := 0
 	partialCaller := -1
 	var lateRelease, lateReached chan struct{}
 	_ = lateIdx
@@ -209,16 +221,34 @@ func runScenario(sc scenario, rep *hx.Report) outcome {
 			for i := range results {
 				results[i] = "stuck"
 			}
+			readSize = 0
+			if kv(ws, "kind") == "read" {
+				readSize = atoi(kv(ws, "size"))
+			}
 			typs := make([]string, n)
 			for i := range typs {
 				typs[i] = "1"
+				if readSize > 0 {
+					typs[i] = "4"
+				}
 			}
 			out.model = append(out.model, "init typ="+strings.Join(typs, ","))
 			for i := 0; i < n; i++ {
 				wg.Add(1)
 				go func(i int) {
 					defer wg.Done()
-					msg, err := p.Client.Hello(context.Background(), fmt.Sprintf("tag%d", i))
+					var msg string
+					var err error
+					if readSize > 0 {
+						buf := make([]byte, readSize)
+						var k int
+						k, err = p.Client.Tunnel(uint64(1000 + i)).Read(buf)
+						if err == nil && k <= len(buf) {
+							msg = string(buf[:k])
+						}
+					} else {
+						msg, err = p.Client.Hello(context.Background(), fmt.Sprintf("tag%d", i))
+					}
 					mu.Lock()
 					defer mu.Unlock()
 					if err == nil {
@@ -250,6 +280,9 @@ func runScenario(sc scenario, rep *hx.Report) outcome {
 				}
 				tag, _ := snix.ParseStr(r.Body)
 				c := atoi(strings.TrimPrefix(tag, "tag"))
+				if readSize > 0 && len(r.Body) >= 8 {
+					c = int(binary.LittleEndian.Uint64(r.Body)) - 1000
+				}
 				idOf[c] = r.ID
 				callerOf[r.ID] = c
 			}
@@ -282,6 +315,17 @@ func runScenario(sc scenario, rep *hx.Report) outcome {
 					frame = snix.ReplyFrame(id, helloTyp, 0, snix.StrBody(good))
 					if _, seen := firstGood[c]; !seen {
 						firstGood[c] = good
+						answeredBeforeFatal[c] = true
+					}
+				case "okread":
+					data := make([]byte, atoi(kv(ws, "len")))
+					for k := range data {
+						data[k] = byte(c*31 + k*7 + 1)
+					}
+					body, _ := sniproxy.VerifEncode("readResponse", []sniproxy.VerifVal{{K: 'b', B: data}, {K: 'e'}})
+					frame = snix.ReplyFrame(id, 4, 0, body)
+					if _, seen := firstGood[c]; !seen {
+						firstGood[c] = string(data)
 						answeredBeforeFatal[c] = true
 					}
 				case "dup":
@@ -330,7 +374,7 @@ func runScenario(sc scenario, rep *hx.Report) outcome {
 			if err := p.Send(frame); err != nil {
 				out.note = "peer send: " + err.Error()
 			}
-			out.model = append(out.model, "reply cap=0 "+hx.Hex(frame))
+			out.model = append(out.model, fmt.Sprintf("reply cap=%d %s", readSize, hx.Hex(frame)))
 		case "latecall":
 			// a caller passes asyncCall's shutdown check and is held there; it enqueues only after
 			// the shutdown call has been sent
@@ -477,7 +521,7 @@ func canonModel(line string) []string {
 	for _, r := range strings.Split(line, ",") {
 		switch {
 		case strings.HasPrefix(r, "ok:b:"):
-			out = append(out, "ok:"+strings.TrimPrefix(r, "ok:b:"))
+			out = append(out, "ok:"+strings.TrimSuffix(strings.TrimPrefix(r, "ok:b:"), "+e:0:-"))
 		case r == "err:3" || r == "err:4":
 			out = append(out, "err:eof")
 		case r == "ghost":
